@@ -50,10 +50,13 @@ def cases(ctx):
                 # the near miss after some documented keys; the first unknown key is the one to be named
                 basekeys = {l.split('=')[0] for l in G.BASE[ty]}
                 pre = ''.join(f'{rnd.choice([x for x in keys if x not in basekeys])}=\n' for _ in range(rnd.randint(0, 2)))
-                out.append((ty, base + pre + f'{nm}=x\n' + 'Zzz=1\n', nm, G.SEC[ty]))
+                # the near miss with an ordinary value, with an empty value only, assigned and then reset, reset and then assigned
+                form = rnd.choice([f'{nm}=x\n', f'{nm}=\n', f'{nm}=x\n{nm}=\n', f'{nm}=\n{nm}=x\n', f'{nm}=""\n', f'{nm}= \n'])
+                out.append((ty, base + pre + form + 'Zzz=1\n', nm, G.SEC[ty]))
         # [Quadlet] section
         for nm in ['defaultdependencies', 'DefaultDependency', 'Foo', 'Image']:
-            out.append((ty, base + f'[Quadlet]\nDefaultDependencies=no\n{nm}=1\n', nm, 'Quadlet'))
+            for val in ['1', '', '1\n' + nm + '=']:
+                out.append((ty, base + f'[Quadlet]\nDefaultDependencies=no\n{nm}={val}\n', nm, 'Quadlet'))
         # every documented key on its own: never an UnknownKey rejection
         for k in keys:
             out.append((ty, base + f'{k}=x\n', None, None))
